@@ -18,7 +18,7 @@ RULE = ("waveform batches (N x T x C) with T in 10..200, C in 1..40: realistic b
 ASSUMPTIONS = ["continuous random amplitudes: no exact ties between samples or channels", "half-peak points are asserted only when a sample back "
                "within half of the peak value exists on that side", "scaling uses powers of two so that it is exact in binary floating point"]
 REQUIRED = {"waveforms_compared": 500, "columns_compared": 5000, "scaling_checked": 50, "permutation_checked": 50, "batch_independence_checked": 50,
-            "late_trough": 30, "swap_rows": 20}
+            "late_trough": 30, "swap_rows": 20, "contested_extrema_batches": 20}
 CASE_TIMEOUT = 120.0
 COLS_IDX = ["peak_trace_idx", "peak_time_idx", "trough_time_idx", "tip_time_idx", "recovery_time_idx"]
 COLS_VAL = ["peak_val", "trough_val", "tip_val", "recovery_val"]
@@ -27,7 +27,7 @@ COLS_VAL = ["peak_val", "trough_val", "tip_val", "recovery_val"]
 def gen_cases(seed, tier):
     n = 30 if tier == "quick" else 1200
     cases = []
-    for cls in ("realistic", "positions", "swap", "degenerate", "nanpad", "ties"):
+    for cls in ("realistic", "positions", "swap", "degenerate", "nanpad", "ties", "close-contest"):
         cases += [{"cls": cls, "seed": seed * 10000 + i, "n": 4, "_w": 1} for i in range(n if cls in ("realistic", "positions") else n // 2)]
     return cases
 
@@ -102,6 +102,19 @@ def batch(rng, cls):
             c2 = int(rng.choice([c for c in range(C) if c != c_pk]))
             t2 = int(rng.choice([t for t in range(1, T) if t != t_pk]))
             a[t2, c2] = A * float(rng.choice([-1.0, 1.0]))
+    if cls == "close-contest":
+        # the extremum is contested: a second sample - later on the same trace, or on a later trace - exceeds the first candidate by a few parts
+        # in 10^9 (double-precision waveforms; the two are different numbers): the global absolute extremum is the larger one
+        for i in range(N):
+            a = arr[i]
+            c_pk = int(np.argmax(np.max(np.abs(a), axis=0)))
+            t_pk = int(np.argmax(np.abs(a[:, c_pk])))
+            v = abs(a[t_pk, c_pk]) * (1 + float(rng.choice([3e-9, 2e-8, 5e-8])))
+            sgn = float(rng.choice([-1.0, 1.0]))
+            if C >= 2 and c_pk < C - 1 and rng.random() < 0.5:
+                a[int(rng.integers(1, T)), int(rng.integers(c_pk + 1, C))] = sgn * v
+            elif t_pk < T - 1:
+                a[int(rng.integers(t_pk + 1, T)), c_pk] = sgn * v
     for i in range(N):
         a = np.nan_to_num(arr[i])
         ch = np.argmax(np.max(np.abs(a), axis=0))
@@ -203,7 +216,9 @@ def run_case(case):
     sigs = set()
     for b in range(case["n"]):
         arr, meta = batch(rng, case["cls"])
-        f32 = rng.random() < 0.3
+        f32 = rng.random() < 0.3 and case["cls"] != "close-contest"     # (contested extrema a few parts in 10^9 apart exist in double precision only)
+        if case["cls"] == "close-contest":
+            res.count("contested_extrema_batches")
         if f32:                       # waveforms as the extraction saves them: single precision
             arr = arr.astype(np.float32)
             for i in range(arr.shape[0]):       # the cast may move the largest deflection of a waveform onto sample 0 only if it was there before; keep the domain
